@@ -276,6 +276,24 @@ theorem driver_never_asleep_with_work {kind : Nat → W.Drv.Cmd} {inCap outCap :
   · exact Or.inl ha
   · exact Or.inr (owed_implies_signal_pending h ho)
 
+/-- **A scheduled tick event is handled (no engine-exit race), any commands.** Whenever the driver's
+    tick event is in the event queue, the engine goroutine will look at the queue again: it is
+    running and not past its last look (`start`, `loop`, or `afterRun`/`clear` with `enginePending`
+    set), or `runAsync` is at its flag test and will start it / set `enginePending`. This is the part
+    of `K.Inv` that does not depend on what a tick does; connections act only while the engine is in `Run`. -/
+theorem scheduled_tick_is_handled {kind : Nat → W.Drv.Cmd} {inCap outCap : Nat} {s : St}
+    (h : Reach kind inCap outCap s) (hev : s.k.evt = true) : K.willLook s.k :=
+  (pinv_reach h).look hev
+
+/-- **Work is served, any commands**: work ⇒ the tick event is scheduled AND will be handled, or a
+    thread still owes its signal, or `runAsync` is about to call `TickLater`. -/
+theorem work_is_served {kind : Nat → W.Drv.Cmd} {inCap outCap : Nat} {s : St}
+    (h : Reach kind inCap outCap s) (hw : W.Drv.work outCap s.core) :
+    (s.k.evt = true ∧ K.willLook s.k) ∨ (∃ a ∈ s.k.apps, K.willSignal a) ∨ s.k.r = .tick := by
+  rcases driver_never_asleep_with_work h hw with h1 | h1
+  · exact Or.inl ⟨h1, scheduled_tick_is_handled h h1⟩
+  · exact Or.inr h1
+
 /-- **`DrainCommandQueue` tests the component's real queue.** The id queues the protocol part reads
     (`NumCommand() == 0`) have, queue by queue, exactly as many entries as the component's command
     queues — a kernel command stays queued until the tick that handles its last response. -/
@@ -328,6 +346,9 @@ example : (runSched kern1 4 4 demoG (schedG ++ [.app 0, .app 0, .retrieve, .deli
 example : (runSched kern1 4 4 demoG (schedG ++ [.app 0, .app 0, .retrieve, .deliver ⟨0⟩, .eng, .eng, .app 0])).map
     (fun (s : St) => (s.k.evt, s.core.d.qs, K.cmdsOf s.k 0, decide (K.finished s.k), decide (Sync s))) =
     some (false, [{}], [], true, true) := by decide
+-- the response scheduled the tick while the engine goroutine is in `Run` (`e = loop`): it will be handled
+example : (runSched kern1 4 4 demoG (schedG ++ [.app 0, .app 0, .retrieve, .deliver ⟨0⟩])).map
+    (fun (s : St) => (s.k.evt, s.k.e, s.k.running)) = some (true, .loop, true) := by decide
 -- … and that last step is the one `drain_returns_only_when_empty` speaks about: `returned` 0 ↦ 1
 example : (runSched kern1 4 4 demoG (schedG ++ [.app 0, .app 0, .retrieve, .deliver ⟨0⟩, .eng, .eng])).map
     (fun (s : St) => s.k.apps.map (·.returned)) = some [0] ∧
